@@ -254,6 +254,19 @@ Theorem C06_tree_history_equals_fresh : forall ops,
 Proof. exact tree_history_equals_fresh. Qed.
 Print Assumptions C06_tree_history_equals_fresh.
 
+(** "exactly": rule, wildcard key names AND captured path values.  [Radix.Tree.tree_find] is
+    findNode (Radix/Tree.v: the transcription with key names and captures, all lookup repairs)
+    with conditions that may read the key names and the captures (path_params conditions);
+    run on the tree that went through the history it returns what it returns on a freshly
+    loaded tree.  ([t_find_rule] above is the rule part of this answer: [t_find_rule_is_radix_find].) *)
+Theorem C06_tree_captures_equal_fresh : forall ops,
+  wf_history ops = true -> guard_dupid ops = false -> dirty ops = [] ->
+  forall path (conditions : route -> list str -> list str -> bool),
+    Radix.Tree.tree_find true true true conditions (emb (index (t_run_fx all_fix ops))) path =
+    Radix.Tree.tree_find true true true conditions (emb (index (t_run_fx all_fix (fresh_ops (current ops))))) path.
+Proof. exact tree_captures_equal_fresh. Qed.
+Print Assumptions C06_tree_captures_equal_fresh.
+
 (** no operation of any history ends in a Go run-time panic of the tree code (cf.
     [C06_F4_pinned_panic] for the pinned commit) *)
 Theorem C06_tree_never_panics : forall ops o,
